@@ -1156,7 +1156,7 @@ def run(chk, p, t):
         "agent time equals the clock time before the tick when prunePropagateEvents runs (PropagateRegistration.generateSubmission)",
         "call resolution by the repo's annotations and class-hierarchy analysis",
     ]
-    for fn in (rule_r1, rule_r2, rule_r3, rule_r4, rule_r5, rule_r6, rule_r7):
+    for fn in (rule_r1, rule_r2, rule_r3, rule_r4, rule_r5, rule_r6, rule_r7, rule_r8):
         rid = "C01.R" + fn.__name__[-1]
         if not chk.wants(rid):
             continue
@@ -1168,3 +1168,178 @@ def run(chk, p, t):
                 rr.undecided(fn.__name__, str(e))
             else:
                 rr.error(fn.__name__, f"vanished anchor: {e}")
+
+
+# ====================================================================== R8
+def rule_r8(chk, p, t):
+    r = chk.rule(
+        "C01.R8",
+        "effect chain of delivered events",
+        10,
+        "a queued impulse stops the integrator at its own time (sign-carrying, terminal event value) and adds its "
+        "delta-v to the velocity slots once; the impulse event converts its own Julian date with the agent's start "
+        "date; removal events remove the kind of agent they name; additions register the agent in every collection",
+        "root finding of the integrator",
+    )
+    IE = "resonaate.dynamics.integration_events"
+    imp = p.cls(f"{IE}.scheduled_impulse.ScheduledImpulse")
+    call = imp.methods.get("__call__")
+
+    def f1():
+        from rsa.terms import inline_locals as inl
+
+        cfg = cfg_of(call)
+        rets = [n for n in cfg.nodes if n.kind == "return"]
+        tm = call.params[1]
+        want = canon(ast.parse(f"{tm} - self.time", mode="eval").body)
+        wantn = canon(ast.parse(f"self.time - {tm}", mode="eval").body)
+        nonconst = [n for n in rets if not isinstance(n.ast.value, ast.Constant)]
+        ok = len(nonconst) >= 1 and all(canon(inl(call, n.ast.value)) in (want, wantn) for n in nonconst)
+        consts = [n for n in rets if isinstance(n.ast.value, ast.Constant)]
+        ok_c = all(n.ast.value.value in (0, 0.0) for n in consts)
+        if ok and ok_c:
+            r.ok(call.qualname, "event value = time - impulse time (zero exactly at the impulse time, sign change across it)", call.loc())
+        else:
+            r.violation(call.qualname, f"impulse-event-value:{[unparse(n.ast.value) for n in rets]}", "the impulse event function no longer returns `time - self.time`: the integrator is not stopped at the impulse time", call.loc())
+        for q in ("discrete_state_change_event.DiscreteStateChangeEvent", "continuous_state_change_event.ContinuousStateChangeEvent"):
+            c = p.cls(f"{IE}.{q}")
+            term, dirn = c.class_attrs.get("terminal"), c.class_attrs.get("direction")
+            if isinstance(term, ast.Constant) and term.value is True and isinstance(dirn, ast.Constant) and dirn.value in (0, 0.0):
+                r.ok(c.qualname + ":terminal", "terminal = True, direction = 0", c.loc())
+            else:
+                r.violation(c.qualname + ":terminal", f"terminal:{unparse(term) if term is not None else None}:{unparse(dirn) if dirn is not None else None}", "state-change events must be terminal with direction 0, otherwise the integrator runs through them and the change is never applied", c.loc())
+        init = imp.methods.get("__init__")
+        asg = {unparse(n.targets[0]): unparse(n.value) for n in walk_no_nested(init.node) if isinstance(n, ast.Assign)}
+        if asg.get("self.thrust") == f"concatenate((zeros(3), {init.params[2]}))" and asg.get("self.time") == init.params[1]:
+            r.ok(init.qualname, "delta-v placed in the velocity slots; time stored", init.loc())
+        else:
+            r.violation(init.qualname, f"impulse-init:{asg.get('self.thrust')}:{asg.get('self.time')}", "the impulse does not store its delta-v in the velocity slots (zeros(3), delta_v) / its own time", init.loc())
+        for nm, want_ret in (("ScheduledECIImpulse", "self.thrust"), ("ScheduledNTWImpulse", "ntw2eci(state, self.thrust)")):
+            c = p.cls(f"{IE}.scheduled_impulse.{nm}")
+            m = c.methods.get("getStateChange")
+            rr = [n for n in walk_no_nested(m.node) if isinstance(n, ast.Return)]
+            if rr and unparse(rr[0].value) == want_ret:
+                r.ok(m.qualname, want_ret, m.loc())
+            else:
+                r.violation(m.qualname, f"state-change:{unparse(rr[0].value) if rr else None}", f"{nm}.getStateChange returns `{unparse(rr[0].value) if rr else None}`, expected `{want_ret}`", m.loc())
+
+    r.guard(call.qualname, f1)
+    ae = p.func("resonaate.dynamics.celestial.Celestial._applyEvents")
+
+    def f2():
+        adds = [n for n in walk_no_nested(ae.node) if isinstance(n, ast.AugAssign) and isinstance(n.op, ast.Add)]
+        ok = len(adds) == 1 and unparse(adds[0].target) == ae.params[3] and unparse(adds[0].value) == f"event.getStateChange(current_time, {ae.params[3]}[:, 0])[:, None]"
+        if ok:
+            r.ok(ae.qualname, "state += getStateChange(t_event, state) once per fired event", ae.loc(adds[0]))
+        else:
+            r.violation(ae.qualname, f"apply:{[unparse(a) for a in adds]}", "a fired impulse is not added to the state exactly once", ae.loc())
+
+    r.guard(ae.qualname, f2)
+    ev = p.cls("resonaate.data.events.scheduled_impulse.ScheduledImpulseEvent")
+    he = ev.methods.get("handleEvent")
+
+    def f3():
+        defs = single_defs(he.node)
+        si = he.params[1]
+        bad = []
+        if unparse(defs.get("start_jd", ast.Constant(0))) != "JulianDate(self.start_time_jd)":
+            bad.append("impulse time is not the event's own start_time_jd")
+        if unparse(defs.get("start_sim_time", ast.Constant(0))) != f"start_jd.convertToScenarioTime({si}.julian_date_start)":
+            bad.append("impulse time is not converted with the agent's start date")
+        impd = defs.get("impulse")
+        if not (isinstance(impd, ast.Call) and [unparse(a) for a in impd.args] == ["start_sim_time", "burn_vector", f"{si}.simulation_id"] and unparse(impd.func) == "frame.impulse"):
+            bad.append(f"impulse built as `{unparse(impd) if impd is not None else None}`")
+        if unparse(defs.get("frame", ast.Constant(0))) != "ThrustFrame(self.thrust_frame)":
+            bad.append("frame is not the event's own thrust_frame")
+        app = find_calls(he.node, "appendPropagateEvent")
+        if not (len(app) == 1 and unparse(app[0].func.value) == si and unparse(app[0].args[0]) == "impulse"):
+            bad.append("the impulse is not queued on the handling agent")
+        if bad:
+            r.violation(he.qualname, "impulse-handler:" + ";".join(bad), "ScheduledImpulseEvent.handleEvent: " + "; ".join(bad), he.loc())
+        else:
+            r.ok(he.qualname, "impulse(own time in the agent's scenario seconds, own vector, own frame) queued on the agent", he.loc())
+
+    r.guard(he.qualname, f3)
+    rem = p.cls("resonaate.data.events.agent_removal.AgentRemovalEvent")
+    hr = rem.methods.get("handleEvent")
+
+    def f4():
+        cfg = cfg_of(hr)
+        si = hr.params[1]
+        got = {}
+        for c in walk_no_nested(hr.node):
+            if isinstance(c, ast.Call) and call_name(c) in ("removeTarget", "removeSensor"):
+                node = cfg.node_of(c)
+                kind = None
+                for cid, lab in cfg.control_conditions(node.id):
+                    tst = unparse(cfg.nodes[cid].ast)
+                    if lab is True and "AgentType.TARGET" in tst and "==" in tst:
+                        kind = "TARGET"
+                    if lab is True and "AgentType.SENSOR" in tst and "==" in tst:
+                        kind = "SENSOR"
+                got[call_name(c)] = (kind, [unparse(a) for a in c.args], unparse(c.func.value))
+        want = {"removeTarget": ("TARGET", ["self.agent_id", "self.tasking_engine_id"], si), "removeSensor": ("SENSOR", ["self.agent_id", "self.tasking_engine_id"], si)}
+        if got == want:
+            r.ok(hr.qualname, "TARGET -> removeTarget, SENSOR -> removeSensor, with the event's own ids", hr.loc())
+        else:
+            r.violation(hr.qualname, f"removal-dispatch:{sorted(got.items())}", f"agent removal dispatch is {got}; expected {want}", hr.loc())
+
+    r.guard(hr.qualname, f4)
+    for evname, adder, idcol in (("target_addition.TargetAdditionEvent", "addTarget", "agent_id"), ("sensor_addition.SensorAdditionEvent", "addSensor", "agent_id")):
+        c = p.cls(f"resonaate.data.events.{evname}")
+        h = c.methods.get("handleEvent")
+
+        def f5(c=c, h=h, adder=adder):
+            calls = find_calls(h.node, adder)
+            require(len(calls) == 1, f"handleEvent does not call {adder} once", h.node)
+            a = calls[0]
+            defs = single_defs(h.node)
+            spec = defs.get(unparse(a.args[0])) if a.args and isinstance(a.args[0], ast.Name) else None
+            ok = unparse(a.func.value) == h.params[1] and len(a.args) == 2 and unparse(a.args[1]) == "self.tasking_engine_id" and isinstance(spec, ast.Dict)
+            if ok:
+                d = {k.value: v for k, v in zip(spec.keys, spec.values) if isinstance(k, ast.Constant)}
+                st = d.get("state")
+                sd = {k.value: unparse(v) for k, v in zip(st.keys, st.values)} if isinstance(st, ast.Dict) else {}
+                ok = unparse(d.get("id", ast.Constant(0))) == "self.agent_id" and sd.get("position") == "self.eci[:3]" and sd.get("velocity") == "self.eci[3:]" and sd.get("type") == "'eci'"
+            if ok:
+                r.ok(h.qualname, f"{adder}(spec of the event's own id and state, own engine id)", h.loc())
+            else:
+                r.violation(h.qualname, f"addition-handler:{unparse(a)[:60]}", f"{c.name}.handleEvent does not call {adder} with a spec built from its own id / state columns and its own tasking engine id", h.loc())
+
+        r.guard(h.qualname, f5)
+    sc = p.cls("resonaate.scenario.scenario.Scenario")
+    ea = EffectAnalysis(p, t)
+
+    def f6():
+        at = sc.methods.get("_addTargetConf")
+        effs = {(e.kind, e.path) for e in ea.effects(at)}
+        need = {("store", "self.target_agents"), ("store", "self._estimate_agents")}
+        eng = [c for c in find_calls(at.node, "addTarget") if "_tasking_engines[" in unparse(c.func.value)]
+        if need <= effs and len(eng) == 1 and unparse(eng[0].func.value) == f"self._tasking_engines[{at.params[2]}]":
+            r.ok(at.qualname, "target registered in target_agents, estimate_agents and the named tasking engine", at.loc())
+        else:
+            r.violation(at.qualname, f"add-target:{sorted(effs & need)}:{len(eng)}", "adding a target does not register it in target_agents, estimate_agents and the tasking engine it names", at.loc())
+        rt = sc.methods.get("removeTarget")
+        dels = sorted(unparse(n.targets[0]) for n in walk_no_nested(rt.node) if isinstance(n, ast.Delete))
+        eng = [c for c in find_calls(rt.node, "removeTarget")]
+        aid = rt.params[1]
+        if dels == sorted([f"self._estimate_agents[{aid}]", f"self.target_agents[{aid}]"]) and len(eng) == 1 and unparse(eng[0].args[0]) == aid:
+            r.ok(rt.qualname, "target removed from target_agents, estimate_agents and its tasking engine", rt.loc())
+        else:
+            r.violation(rt.qualname, f"remove-target:{dels}", "removing a target does not delete it from target_agents, estimate_agents and its tasking engine", rt.loc())
+        asn = sc.methods.get("_addSensorConf")
+        effs = {(e.kind, e.path) for e in ea.effects(asn)}
+        eng = [c for c in find_calls(asn.node, "addSensor") if "_tasking_engines[" in unparse(c.func.value)]
+        if ("store", "self._sensor_agents") in effs and len(eng) == 1:
+            r.ok(asn.qualname, "sensor registered in sensor_agents and the named tasking engine", asn.loc())
+        else:
+            r.violation(asn.qualname, "add-sensor", "adding a sensor does not register it in sensor_agents and the tasking engine it names", asn.loc())
+        rs = sc.methods.get("removeSensor")
+        dels = sorted(unparse(n.targets[0]) for n in walk_no_nested(rs.node) if isinstance(n, ast.Delete))
+        eng = [c for c in find_calls(rs.node, "removeSensor")]
+        if dels in ([f"self.sensor_agents[{rs.params[1]}]"], [f"self._sensor_agents[{rs.params[1]}]"]) and len(eng) == 1:
+            r.ok(rs.qualname, "sensor removed from sensor_agents and its tasking engine", rs.loc())
+        else:
+            r.violation(rs.qualname, f"remove-sensor:{dels}", "removing a sensor does not delete it from sensor_agents and its tasking engine", rs.loc())
+
+    r.guard("Scenario.add/remove", f6)
